@@ -46,4 +46,44 @@ theorem regions_agree (t p : ℝ) :
     · rw [if_neg hb, if_neg hb]
   · intro hb
     rw [if_neg hb, if_neg hb]; exact ⟨rfl, rfl⟩
+
+/-- **Exactly where the two classifiers may differ** inside the box: below 350 degC iff `p` lies between the
+    two saturation pressures (half-open as the two comparisons are written: IAPWS-97 tests `p > p_sat`,
+    IFC-67 tests `p < p_sat`); between the IFC-67 critical temperature and 590 degC iff `p` lies between the
+    two B23 pressures; never above 590 degC. -/
+theorem regions_differ_iff (t p : ℝ) (hb : tmin ≤ t ∧ t ≤ 800 ∧ 0 ≤ p ∧ p ≤ 100000000) :
+    (t ≤ 350 → (Gen.Ifc67.region t p ≠ Gen.Iapws.region t p ↔
+      (Proofs.Iapws.satP t < p ∧ p < sat67 t) ∨ (sat67 t ≤ p ∧ p ≤ Proofs.Iapws.satP t))) ∧
+    (tc1C < t → t ≤ 590 → (Gen.Ifc67.region t p ≠ Gen.Iapws.region t p ↔
+      (Proofs.Iapws.b23P t < p ∧ p < b23p67 t) ∨ (b23p67 t ≤ p ∧ p ≤ Proofs.Iapws.b23P t))) := by
+  rw [region67_unfold, Proofs.Iapws.region_unfold, tmin_eq]
+  have h350 := tc1C_gt_350
+  constructor
+  · intro ht
+    rw [if_pos hb, if_pos hb, if_pos ht, if_pos ht]
+    by_cases h1 : p < sat67 t <;> by_cases h2 : Proofs.Iapws.satP t < p
+    · rw [if_pos h1, if_pos h2]; simp [h1, h2]
+    · rw [if_pos h1, if_neg h2]
+      simp only [ne_eq, not_true_eq_false, false_iff, not_or, not_and, not_le]
+      exact ⟨fun h => absurd h h2, fun h => absurd h1 (not_lt.mpr h)⟩
+    · rw [if_neg h1, if_pos h2]
+      simp only [ne_eq, not_true_eq_false, false_iff, not_or, not_and, not_le]
+      exact ⟨fun _ => h1, fun _ => h2⟩
+    · rw [if_neg h1, if_neg h2]
+      have a := not_lt.mp h1; have b := not_lt.mp h2
+      simp [a, b]
+  · intro ht1 ht2
+    have ht3 : ¬ t ≤ 350 := not_le.mpr (lt_trans h350 ht1)
+    rw [if_pos hb, if_pos hb, if_neg ht3, if_neg ht3, if_neg (not_le.mpr ht1), if_pos ht2, if_pos ht2]
+    by_cases h1 : p < b23p67 t <;> by_cases h2 : Proofs.Iapws.b23P t < p
+    · rw [if_pos h1, if_pos h2]; simp [h1, h2]
+    · rw [if_pos h1, if_neg h2]
+      simp only [ne_eq, not_true_eq_false, false_iff, not_or, not_and, not_le]
+      exact ⟨fun h => absurd h h2, fun h => absurd h1 (not_lt.mpr h)⟩
+    · rw [if_neg h1, if_pos h2]
+      simp only [ne_eq, not_true_eq_false, false_iff, not_or, not_and, not_le]
+      exact ⟨fun _ => h1, fun _ => h2⟩
+    · rw [if_neg h1, if_neg h2]
+      have a := not_lt.mp h1; have b := not_lt.mp h2
+      simp [a, b]
 end Proofs.Ifc67
